@@ -125,7 +125,9 @@ StepField(i, f) ==
   THEN \* hardcoded: the constant is written whatever was passed; a named one is what the object holds
        LET f2 == IF i.name = "" THEN Rest(f) ELSE Bind(Rest(f), i.name, i.hard)
        IN  AfterWrite(WR!WApply(w, BasicCall(i, i.hard, IF i.len.k = "lit" THEN i.len.n ELSE -1)), f2)
-  ELSE \/ (~(DOMS.strict /\ i.optional /\ f.missing) /\ \E v \in FieldCands(i, f) : FieldWith(i, f, v))     \* strict: nothing present behind a missing optional
+  ELSE \/ (/\ ~(DOMS.strict /\ i.optional /\ f.missing)                                                    \* strict: nothing present behind a missing optional
+            /\ ~(IsFree(f.given) /\ IsStruct(i.type) /\ i.optional /\ f.missing)      \* (a struct value is only chosen where it is also written)
+            /\ \E v \in FieldCands(i, f) : FieldWith(i, f, v))
        \/ (IsFree(f.given) /\ MayBeNone(i, f) /\ FieldWith(i, f, NoneV))      \* (None kept out of the candidate set: TLC sets are homogeneous)
 
 \* <length>: the count is chosen here (Free) or derived from the referencing value (given); the later field honours it
